@@ -121,6 +121,20 @@ def _als(case, lean):
     def spy_nue(user_num, il): out = orig_nue(user_num, il); cap.append(out); return out
     m.new_user_embedding = spy_nue
     quser = frnd.choice([None, int(ds.users.ids()[0]), 777777])
+    def fold_resid(Ic, bmc, uf):
+        """relative residual of the history's normal equations (over the item matrix `Ic` and bias model `bmc` in force) at `uf`"""
+        ref = ItemList(item_ids=hids, rating=np.array(hr, dtype="f8"))
+        kn = [k for k, i in enumerate(hids) if i != 424242]; rows_i = [ds.items.number(hids[k]) for k in kn]
+        if explicit:
+            hb, ubr = bmc.compute_for_items(ref, None, ref)
+            out = mat().call("c10.explicit", dict(M=[[rat(v) for v in Ic[t]] for t in rows_i], r=[rat(hr[k] - float(hb[k])) for k in kn], c=rat(case["reg_user"] * len(kn)), x=[rat(v) for v in uf]))
+            scale = max(1.0, float(np.abs(Ic[rows_i]).max()) ** 2 * len(kn))
+        else:
+            w = case["weight"]; inh = set(rows_i)
+            out = mat().call("c10.implicit", dict(Y=[[rat(v) for v in row] for row in Ic], p=[rat(1.0 if t in inh else 0.0) for t in range(Ic.shape[0])],
+                                                  w=[rat(1.0 + w * (1.0 if t in inh else 0.0)) for t in range(Ic.shape[0])], c=rat(case["reg_user"]), x=[rat(v) for v in uf]))
+            scale = max(1.0, float(np.abs(Ic).max()) ** 2 * Ic.shape[0] * (1 + w)); ubr = None
+        return max(abs(float(Fraction(v))) for v in out["resid"]) / scale, ubr
     for rep in range(2):
         cap.clear()
         fsc = m(RecQuery(user_id=quser, user_items=hist), items).scores()
@@ -129,22 +143,23 @@ def _als(case, lean):
             failed.append(f"presentation {rep + 1}: the supplied history was altered ({hr} -> {now})"); break
         if not cap: failed.append("no embedding was folded in for the supplied history"); break
         uf = cap[0][0].numpy().astype("f8"); ub = cap[0][1]
-        ref = ItemList(item_ids=hids, rating=np.array(hr, dtype="f8"))
-        kn = [k for k, i in enumerate(hids) if i != 424242]; rows_i = [ds.items.number(hids[k]) for k in kn]
-        if explicit:
-            hb, ub_ref = bm.compute_for_items(ref, None, ref)
-            out = mat().call("c10.explicit", dict(M=[[rat(v) for v in I[t]] for t in rows_i], r=[rat(hr[k] - float(hb[k])) for k in kn], c=rat(case["reg_user"] * len(kn)), x=[rat(v) for v in uf]))
-            scale = max(1.0, float(np.abs(I[rows_i]).max()) ** 2 * len(kn))
-        else:
-            w = case["weight"]; inh = set(rows_i)
-            out = mat().call("c10.implicit", dict(Y=[[rat(v) for v in row] for row in I], p=[rat(1.0 if t in inh else 0.0) for t in range(I.shape[0])],
-                                                  w=[rat(1.0 + w * (1.0 if t in inh else 0.0)) for t in range(I.shape[0])], c=rat(case["reg_user"]), x=[rat(v) for v in uf]))
-            scale = max(1.0, float(np.abs(I).max()) ** 2 * I.shape[0] * (1 + w)); ub_ref = None
-        r = max(abs(float(Fraction(v))) for v in out["resid"]) / scale; worst = max(worst, r)
+        r, ub_ref = fold_resid(I, bm if explicit else None, uf); worst = max(worst, r)
         if r > 1e-5: failed.append(f"presentation {rep + 1}: folded-in embedding misses its normal equations by {r:.2e} (history as {form})")
         for t in range(len(items)):
             want = float(uf @ I[t]) + (float(bm.global_bias + bm.item_biases[t] + (ub_ref or 0.0)) if explicit else 0.0)
             if not math.isnan(fsc[t]) and abs(float(fsc[t]) - want) > 1e-4 * max(1, abs(want)): failed.append(f"presentation {rep + 1}: fold-in score of item {t} = {fsc[t]}, dot + biases = {want}"); break
+    # the same scorer trained again (another seed, so other item embeddings) and asked to fold the same history in: the embedding solves
+    # the system over the embeddings the scorer has NOW — nothing kept from the first training takes part
+    if not failed:
+        m.initial_params = orig_init; m.als_half_epoch = orig_half
+        m.train(ds, TrainingOptions(rng=case["seed"] + 1))
+        I2 = m.item_features_.numpy().astype("f8"); cap.clear()
+        m(RecQuery(user_id=quser, user_items=hist), items)
+        if not cap: failed.append("after retraining: no embedding was folded in for the supplied history")
+        else:
+            r2, _ = fold_resid(I2, m.bias_ if explicit else None, cap[0][0].numpy().astype("f8")); worst = max(worst, r2)
+            if r2 > 1e-5: failed.append(f"after retraining: folded-in embedding misses the normal equations of the retrained model by {r2:.2e}")
+        classes.append("fold-in after retraining")
     m.new_user_embedding = orig_nue
     if case["reg_user"] != case["reg_item"]: classes.append("per-side regularisation")
     if case["extra_item"]: classes.append("item without data")
